@@ -9,7 +9,7 @@ import (
 )
 
 var hookOpts = []string{"before", "beforectx", "after", "afterctx", "obs"}
-var otherOpts = []string{"panic", "perr", "timeout", "batch", "substore", "upcast"}
+var otherOpts = []string{"panic", "perr", "timeout", "batch", "substore", "upcast", "upcastself"}
 
 func genVal(t *rapid.T) Val {
 	v := Val{Shape: rapid.SampledFrom([]string{"plain", "plain", "ptr", "named", "namedptr", "namedvalptr", "envelope", "envelope", "ptrmarsh", "ptrmarshptr", "holder", "mutenv"}).Draw(t, "shape")}
